@@ -643,7 +643,7 @@ fn main() {
     let replay = load_replay(&mut ctx);
     if let Err(e) = self_checks(ctx.seed) { println!("HARNESS-ERROR C06 self-check failed: {e}"); std::process::exit(3); }
     let mut rep = Report::new();
-    let n = ctx.tier.pick(15_000, 400_000);
+    let n = ctx.tier.pick(60_000, 400_000);
     run_cases(&ctx, &replay, &mut rep, "sets", n, |rng, rep, _case| one_case(rng, rep, 200, false, None));
 
     let mut meta = Meta::new("exploration",
